@@ -55,9 +55,9 @@ func (l *seqLog) snapshot() []int {
 }
 
 type memConn struct {
-	mu   sync.Mutex
-	cond *sync.Cond
-	seq  *seqLog
+	mu      sync.Mutex
+	cond    *sync.Cond
+	seq     *seqLog
 	rechunk func([]byte) [][]byte // how bytes written here are cut into the peer's reads
 
 	chunks    [][]byte // pending inbound data; one Read never crosses a chunk boundary
@@ -72,16 +72,16 @@ type memConn struct {
 	rdeadline time.Time
 
 	// fault plan
-	failWrite   int // index of Write call to fail (-1 none)
-	failRead    int
-	failDead    int
-	shortWrite  int         // index of Write call that transfers only half and returns io.ErrShortWrite
-	afterWrite  map[int]func() // hook after the n-th write has been logged (before returning)
-	gate        chan struct{} // if non-nil, every Write waits for a token after logging "entered"
-	gateEntered chan int
-	nWrite      int
-	nRead       int
-	nDead       int
+	failWrite       int // index of Write call to fail (-1 none)
+	failRead        int
+	failDead        int
+	shortWrite      int            // index of Write call that transfers only half and returns io.ErrShortWrite
+	afterWrite      map[int]func() // hook after the n-th write has been logged (before returning)
+	gate            chan struct{}  // if non-nil, every Write waits for a token after logging "entered"
+	gateEntered     chan int
+	nWrite          int
+	nRead           int
+	nDead           int
 	writeAfterClose int
 }
 
@@ -324,8 +324,11 @@ func (h *recHandler) events() []evRec {
 	defer h.mu.Unlock()
 	return append([]evRec(nil), h.evs...)
 }
-func (h *recHandler) OnOpen(s *gws.Conn)           { h.seq.add(10); h.add(evRec{Kind: "open"}) }
-func (h *recHandler) OnClose(s *gws.Conn, e error) { h.seq.add(11); h.add(evRec{Kind: "close", Err: e}) }
+func (h *recHandler) OnOpen(s *gws.Conn) { h.seq.add(10); h.add(evRec{Kind: "open"}) }
+func (h *recHandler) OnClose(s *gws.Conn, e error) {
+	h.seq.add(11)
+	h.add(evRec{Kind: "close", Err: e})
+}
 func (h *recHandler) OnPing(s *gws.Conn, p []byte) {
 	h.seq.add(12)
 	h.add(evRec{Kind: "ping", Opcode: 9, Payload: append([]byte(nil), p...)})
